@@ -272,6 +272,18 @@ def gen_case(rng, tier, index):
             fm = float(m)
             v = rng.choice([fm + 0.01, math.nextafter(fm, math.inf), 2 * fm, rng.uniform(fm, 5 * fm) + 0.01,
                             round(rng.uniform(fm, 3 * fm), 2) + 0.01, fm, fm * 0.5, rng.uniform(0, fm), fm + 1e-6])
+        if auto and rng.random() < 0.15:
+            # several wells of ONE column in one call, needing different numbers of partitions
+            n = rng.randint(2, 6)
+            fm = float(m)
+            vs = []
+            for _ in range(n):
+                k = rng.choice([0, 0, 1, 1, 2, 3, 5])
+                vs.append(rng.choice([fm * k + rng.uniform(0.01, fm), float(int(fm * k) + rng.randint(1, max(1, int(fm)))),
+                                      fm * max(k, 1), round(fm * k + rng.uniform(0.01, fm), 2), 0.0 if rng.random() < 0.3 else fm * 0.9]))
+            return {"kind": "transfer_multi", "device": rng.choice(["evo", "fluent"]), "m": m, "vs": vs,
+                    "wash": rng.choice([1, 2, "flush", "reuse"]), "pb": rng.choice(["auto", "source", "destination"]),
+                    "same_column_dst": rng.random() < 0.7}
         return {"kind": "transfer", "device": rng.choice(["evo", "fluent"]), "m": m, "v": v, "auto_split": auto,
                 "wash": rng.choice([1, 1, 2, 3, 4, "flush", "reuse"]), "src": rng.choice(["plate", "plate", "trough"])}
     fm = float(m)
@@ -298,6 +310,8 @@ def run_case(ctx, case):
         _run_helper(ctx, case)
     elif kind == "transfer":
         _run_transfer(ctx, case)
+    elif kind == "transfer_multi":
+        _run_transfer_multi(ctx, case)
     elif kind == "rd":
         _run_rd(ctx, case)
     elif kind == "distribute":
@@ -437,6 +451,58 @@ def _run_transfer(ctx, case):
         tol = half * max(1, len(good)) + REL * fr(v)
         _chk(ctx, "record_volumes_sum_to_volume", abs(sum(good, Fraction(0)) - fr(v)) <= tol,
              lambda: det(side=side, sum=float(sum(good, Fraction(0)))), key=key)
+
+
+def _run_transfer_multi(ctx, case):
+    """One transfer of several wells of a column whose volumes need different numbers of partitions: every
+    well must still get exactly ceil(v/max) pairs that add up to v."""
+    import robotools
+
+    dev = case["device"]
+    m = dec(case["m"])
+    vs = [float(dec(v)) for v in case["vs"]]
+    n = len(vs)
+    nonint = _nonint(m)
+    cls = robotools.EvoWorklist if dev == "evo" else robotools.FluentWorklist
+    wl = cls(max_volume=m, auto_split=True)
+    src = robotools.Labware("SRC", 8, 2, min_volume=0, max_volume=1e9, initial_volumes=1e8)
+    dst = robotools.Labware("DST", 8, 3, min_volume=0, max_volume=1e9)
+    rows = "ABCDEFGH"
+    sw = [f"{rows[i]}01" for i in range(n)]
+    dw = [f"{rows[i]}02" for i in range(n)] if case.get("same_column_dst") else [f"{rows[(i * 3) % 8]}0{1 + i % 3}" for i in range(n)]
+    exc = None
+    try:
+        wl.transfer(src, sw, dst, dw, vs, wash_scheme=dec(case.get("wash", 1)), partition_by=case.get("pb", "auto"))
+    except Exception as e:
+        exc = e
+    ctx.count("transfers_multi:" + dev)
+    ctx.case(case, len({_exact(v, m)[0] for v in vs if v > 0}) >= 2)
+    fm = fr(m)
+    half = Fraction(1, 200) + REL * max(1, fm)
+    per = {i: [] for i in range(n)}
+    for r in list(wl):
+        if r[:2] == "A;":
+            try:
+                f = parse(r).f
+            except GrammarError:
+                continue
+            per.setdefault(f["position"] - 1, []).append(f["volume"])  # column 1 of an 8-row plate: position = row + 1
+    det = lambda **kw: dict({"call": f"{cls.__name__}.transfer", "volumes": vs, "max_volume": m, "raised": repr(exc) if exc else None,
+                             "aspirated_per_source_well": {sw[i]: [float(x) for x in per.get(i, [])] for i in range(n)},
+                             "partition_by": case.get("pb")}, **kw)
+    key = KEY_D1 if nonint and exc is not None and isinstance(exc, robotools.InvalidOperationError) else None
+    if not _chk(ctx, "split_transfer_not_refused", exc is None, det, key=key):
+        return
+    for i, v in enumerate(vs):
+        xs = per.get(i, [])
+        if v == 0:
+            _chk(ctx, "zero_volume_emits_nothing", not xs, lambda: det(well=sw[i]))
+            continue
+        nn, allowed, band, k = _exact(v, m)
+        _chk(ctx, "record_count_is_exact_ceil", len(xs) in allowed, lambda: det(well=sw[i], expected_records=sorted(allowed), observed_records=len(xs)))
+        _chk(ctx, "record_volume_le_max_volume", all(x <= fm + half for x in xs), lambda: det(well=sw[i]))
+        tol = half * max(1, len(xs)) + REL * fr(v)
+        _chk(ctx, "record_volumes_sum_to_volume", abs(sum(xs, Fraction(0)) - fr(v)) <= tol, lambda: det(well=sw[i], sum=float(sum(xs, Fraction(0)))))
 
 
 def _expected_multi(m, vol, req):
